@@ -54,5 +54,52 @@ def phase_order_findings(ck, layouts=None):
                     break
             if done:
                 break
+    # parent counters: a task whose initial counter (as set by the real reset_hydro_tasks) is below its number of parent edges becomes
+    # ready before all its parents have finished
+    for b in blocks:
+        tasks = b.get("tasks", [])
+        n = len(tasks)
+        parents = [[] for _ in range(n)]
+        for t in tasks:
+            for c in t["children"]:
+                if 0 <= c < n:
+                    parents[c].append(t["id"])
+        for t in tasks:
+            c = t["id"]
+            if t["p0"] >= len(parents[c]) or not parents[c]:
+                continue
+            # run p0 of the parents (with everything they need), then c; leave out a parent that touches a common subgrid if possible
+            shared = [q for q in parents[c] if set(c07.touched(tasks[q])) & set(c07.touched(t))]
+            left_out = shared[-1] if shared else parents[c][-1]
+            chosen = [q for q in parents[c] if q != left_out][:t["p0"]]
+            need, stack = set(), list(chosen)
+            while stack:
+                q = stack.pop()
+                if q in need:
+                    continue
+                need.add(q)
+                stack += parents[q]
+            # topological order by parent counts on the needed set
+            cnt = {q: len(parents[q]) for q in need}
+            ready = sorted(q for q in need if cnt[q] == 0)
+            order = []
+            while ready:
+                q = ready.pop(0)
+                order.append(q)
+                for ch in tasks[q]["children"]:
+                    if ch in cnt:
+                        cnt[ch] -= 1
+                        if cnt[ch] == 0:
+                            ready.append(ch)
+                            ready.sort()
+            if len(order) != len(need) or left_out in need:
+                continue
+            order.append(c)
+            verdict, events = c07.run_ordered(sh, b["layout"], order)
+            if ("+%d" % c) in events:
+                found.append({"layout": list(b["layout"]), "t1": c07.tname(b, left_out), "t2": c07.tname(b, c), "subgrid": (sorted(set(c07.touched(tasks[left_out])) & set(c07.touched(t))) or [t["sub"]])[0],
+                              "phases": [c07.PHASE_NAME[c07.PHASE[tasks[left_out]["kind"]]], c07.PHASE_NAME[c07.PHASE[t["kind"]]]], "order": order,
+                              "counter": {"initial_parent_counter": t["p0"], "parent_edges": len(parents[c])}, "observed": {"verdict": verdict, "events": events[:80]}})
+                break
     ck.coverage["hydro_task_tables_checked_for_phase_order"] = len(blocks)
     return found
